@@ -79,7 +79,7 @@ fn build(fmt: &str, g: &Grid, variant: u8) -> Vec<u8> {
                     rows.push(ods::ORow { cells, repeat: 1 });
                 }
             }
-            ods::write(&ods::OBook { sheets: vec![ods::OSheet { name: "S".into(), rows, display: None }], ..Default::default() }, Method::Deflated)
+            ods::write(&ods::OBook { sheets: vec![ods::OSheet { name: "S".into(), rows, display: None }], row_wrappers: if variant == 1 { 3 } else { 0 }, ..Default::default() }, Method::Deflated)
         }
     }
 }
@@ -133,7 +133,7 @@ fn run_history<R: Reader<Cursor<Vec<u8>>>>(bytes: &[u8], hist: &[Opt]) -> Result
 
 pub fn check(rep: &Report) {
     let t = crate::thorough(&rep.tier);
-    rep.rule("sheets = every subset of rows 0..4 non-empty (32 patterns) x column offset {0,2} x 4 formats; options = FirstNonEmptyRow and Row(n) for n in {0..6, 65535, 65536, 1048576, u32::MAX}; histories = every sequence of <= 2 option settings over all 12 options, plus every sequence of 3 over {First, Row(1), Row(3), Row(65536)} (thorough: all sequences of 3 over all options), a read after every step on one reader; non-trivial = history with a Row(n) option on a non-empty sheet; distinct by (format, sheet, history)");
+    rep.rule("sheets = every subset of rows 0..4 non-empty (32 patterns) x column offset {0,2} x 4 formats (xlsx / xlsb also with a stale dimension record, xlsx with implicit references, ods with the first row in table:table-header-rows and the rest in table:table-rows); options = FirstNonEmptyRow and Row(n) for n in {0..6, 65535, 65536, 1048576, u32::MAX}; histories = every sequence of <= 3 option settings over all 12 options, plus every sequence of 4 over {First, Row(1), Row(3), Row(65536)} (thorough: all sequences of 4 over all options), a read after every step on one reader; non-trivial = history with a Row(n) option on a non-empty sheet; distinct by (format, sheet, history)");
     rep.assume("columns of the range under Row(n) are not constrained (the statement fixes only the first row and the cell values)");
     let ns: Vec<u32> = vec![0, 1, 2, 3, 4, 5, 6, 65535, 65536, 1_048_576, u32::MAX];
     let mut opts: Vec<Opt> = vec![Opt::First];
@@ -142,10 +142,11 @@ pub fn check(rep: &Report) {
     let mut hists: Vec<Vec<Opt>> = vec![];
     for a in &opts { hists.push(vec![*a]); }
     for a in &opts { for b in &opts { hists.push(vec![*a, *b]); } }
-    if t { for a in &opts { for b in &opts { for c in &opts { hists.push(vec![*a, *b, *c]); } } } }
-    else { for a in small { for b in small { for c in small { hists.push(vec![a, b, c]); } } } }
+    for a in &opts { for b in &opts { for c in &opts { hists.push(vec![*a, *b, *c]); } } }
+    if t { for a in &opts { for b in &opts { for c in &opts { for d in &opts { hists.push(vec![*a, *b, *c, *d]); } } } } }
+    else { for a in small { for b in small { for c in small { for d in small { hists.push(vec![a, b, c, d]); } } } } }
     let mut jobs = vec![];
-    for f in FORMATS { for p in 0..34u32 { if p == 33 && f != "xls" { continue; } for off in [0u32, 2] { for variant in [0u8, 1, 2] { if (variant == 1 && (f == "xls" || f == "ods")) || (variant == 2 && f != "xlsx") { continue; } jobs.push((f, p, off, variant)); } } } }
+    for f in FORMATS { for p in 0..34u32 { if p == 33 && f != "xls" { continue; } for off in [0u32, 2] { for variant in [0u8, 1, 2] { if (variant == 1 && f == "xls") || (variant == 2 && f != "xlsx") { continue; } jobs.push((f, p, off, variant)); } } } }
     let nh = hists.len() as u64;
     jobs.par_iter().for_each(|(fmt, p, off, variant)| {
         let stale = &(*variant == 1);
@@ -172,7 +173,7 @@ pub fn check(rep: &Report) {
                     for (i, (r, o)) in ranges.iter().zip(h.iter()).enumerate() {
                         if let Err((kind, detail)) = check_read(r, &g, *o) {
                             let c = match o { Opt::Row(n) => n_class(&g, *n), _ => "default" };
-                            rep.fail(&format!("{fmt}/{kind}/{c}{}{}", if i > 0 { "/after-option-change" } else { "" }, match *variant { 1 => "/stale-dimension", 2 => "/implicit-references", _ => "" }), &format!("step {i} under {o:?}: {detail} (history {h:?})"), replay);
+                            rep.fail(&format!("{fmt}/{kind}/{c}{}{}", if i > 0 { "/after-option-change" } else { "" }, match *variant { 1 if *fmt == "ods" => "/rows-in-grouping-elements", 1 => "/stale-dimension", 2 => "/implicit-references", _ => "" }), &format!("step {i} under {o:?}: {detail} (history {h:?})"), replay);
                             break;
                         }
                     }
